@@ -618,6 +618,7 @@ func runC14(c *fw.Ctx) {
 	c.Cases("mutating-callbacks", c.N(400, 100000), false, func(i int, r *rng.R) { c14Mutating(c, r) })
 	c.Cases("panicking-callbacks", c.N(400, 100000), false, func(i int, r *rng.R) { c14Panicking(c, r) })
 	c.Cases("scratch-reuse", c.N(300, 50000), false, func(i int, r *rng.R) { c14Scratch(c, r) })
+	c.Cases("current-values", c.N(300, 50000), false, func(i int, r *rng.R) { c14Current(c, r) })
 	c.Cases("containers", c.N(2000, 1000000), false, func(i int, r *rng.R) {
 		// several elements of each kind interleaved, none of a kind, neighbours of look-alike kinds, empty
 		root := spec.List
@@ -1080,6 +1081,130 @@ func specOfScalar(v any) *spec.Spec {
 		return spec.BoolV(x)
 	}
 	return spec.NilV()
+}
+
+// c14Current: a callback replaces the values of entries that are still to come (no entry is added or removed; lists
+// that had a SubList / Concat / Clone taken before, objects rewritten by one multi-pair Set). Whatever is visited is
+// visited "with the value Get returns": at the moment of the visit the value handed to the callback is what Get(i) /
+// Get(key) says.
+func c14Current(c *fw.Ctx, r *rng.R) {
+	n := r.Range(3, 9)
+	view := r.Intn(4)
+	prelude := r.Intn(4)
+	inL := func() string {
+		return fmt.Sprintf("list of %d strings (prelude %d: 0 none, 1 SubList taken, 2 Concat taken, 3 Clone taken); untyped view %d whose first callback replaces all later elements", n, prelude, view)
+	}
+	guard(c, inL, func() {
+		c.Distinct(inL())
+		c.Count("current_value_cases")
+		l := at.NewList()
+		for i := 0; i < n; i++ {
+			l.Add(fmt.Sprintf("old%d", i))
+		}
+		var keepAlive any
+		switch prelude {
+		case 1:
+			keepAlive = l.SubList(0, 0)
+		case 2:
+			keepAlive = l.Concat(at.NewList())
+		case 3:
+			keepAlive = l.Clone()
+		}
+		_ = keepAlive
+		calls := 0
+		bad := ""
+		see := func(i int, v any) {
+			calls++
+			if calls == 1 {
+				for j := i + 1; j < n; j++ {
+					l.Replace(j, fmt.Sprintf("new%d", j))
+				}
+			}
+			if i >= 0 && bad == "" {
+				if cur := l.Get(i); !eqSlot(cur, v) {
+					bad = fmt.Sprintf("element %d handed over as %v while Get(%d) is %v", i, v, i, cur)
+				}
+			}
+		}
+		idx := 0
+		pan, msg := drive.Protect(func() {
+			switch view {
+			case 0:
+				l.ForEach(func(i int, v any) { see(i, v) })
+			case 1:
+				l.ForEachValue(func(v any) { see(idx, v); idx++ })
+			case 2:
+				l.Map(func(i int, v any) any { see(i, v); return v })
+			default:
+				l.ForEachString(func(v string) { see(idx, v); idx++ })
+			}
+		})
+		if pan {
+			c.Violate("view-wrong:stale-value", inL(), "the iteration ends normally", "panic: "+msg)
+			return
+		}
+		if bad != "" {
+			c.Violate("view-wrong:stale-value", inL(), "every element is handed over with the value Get returns at that moment", bad)
+		}
+	})
+	m := r.Range(2, 7)
+	oview := r.Intn(3)
+	inO := func() string {
+		return fmt.Sprintf("object with %d int fields; view %d whose first callback rewrites all fields in one Set call", m, oview)
+	}
+	guard(c, inO, func() {
+		c.Distinct(inO())
+		o := at.NewObject()
+		for i := 0; i < m; i++ {
+			o.Set(fmt.Sprintf("k%d", i), i)
+		}
+		calls := 0
+		bad := ""
+		see := func(k string, v any) {
+			calls++
+			if calls == 1 {
+				var args []any
+				for i := 0; i < m; i++ {
+					args = append(args, fmt.Sprintf("k%d", i), 100+i)
+				}
+				o.Set(args...)
+			}
+			if k != "" && bad == "" {
+				if cur := o.Get(k); !eqSlot(cur, v) && calls > 1 {
+					bad = fmt.Sprintf("field %q handed over as %v while Get says %v", k, v, cur)
+				}
+			}
+		}
+		pan, msg := drive.Protect(func() {
+			switch oview {
+			case 0:
+				o.ForEach(func(k string, v any) { see(k, v) })
+			case 1:
+				o.Map(func(k string, v any) any { see(k, v); return v })
+			default:
+				o.ForEachInt(func(v int) {
+					// no key here: after the rewrite every value still to come is one of the new ones
+					calls++
+					if calls == 1 {
+						var args []any
+						for i := 0; i < m; i++ {
+							args = append(args, fmt.Sprintf("k%d", i), 100+i)
+						}
+						o.Set(args...)
+					} else if v < 100 && bad == "" {
+						bad = fmt.Sprintf("ForEachInt handed over the old value %d after all fields were rewritten", v)
+					}
+				})
+			}
+		})
+		if pan {
+			c.Violate("view-wrong:stale-value", inO(), "the iteration ends normally", "panic: "+msg)
+			return
+		}
+		if bad != "" {
+			c.Violate("view-wrong:stale-value", inO(), "every field is handed over with the value Get returns at that moment", bad)
+		}
+	})
 }
 
 func c14Case(c *fw.Ctx, r *rng.R, tree *spec.Spec) {
